@@ -194,8 +194,8 @@ class PairScenario(object):
     def oracle(self, ctx, res, info):
         for a in (info.get("victim"), info.get("iact")):
             if a is not None and a.error is not None and not isinstance(a.error, instr.DeadlockBroken):
-                res.violation("unexpected-exception/%s/%s" % (a.role and (self.a if a.role == "V" else self.b), type(a.error).__name__),
-                              "%s raised %r" % (a.role, a.error), tb=getattr(a, "tb", None))
+                # an exception out of the API is not a deadlock: observed, not judged here (C02/C18 judge it)
+                res.count("foreign.exception_from_api/%s" % type(a.error).__name__)
         if ctx.finish_state != "ok":
             res.violation("hang/final-shutdown/%s" % ">".join(self.layers),
                           "shutdown(wait=True) after the pair did not return (%s): %s" % (ctx.finish_state, instr.describe_threads()),
@@ -362,8 +362,7 @@ def run_nested(case, res):
                     res.inconclusive.append("nested %s: client did not finish (%s)" % (label, why))
                     harness.mark_recycle()
                 elif a.error is not None and not isinstance(a.error, FTimeout):
-                    res.violation("nested/unexpected-exception/%s/%s" % (site, type(a.error).__name__),
-                                  "client raised %r in %s" % (a.error, label), tb=getattr(a, "tb", None))
+                    res.count("foreign.exception_from_api/%s" % type(a.error).__name__)
                 elif isinstance(a.error, FTimeout):
                     res.violation("nested/stalled/%s" % site, "future not resolved within 20 s in %s" % label)
                 if state["reached"]:
@@ -457,8 +456,7 @@ def run_fuzz(case, res):
                 return
             for a in actors:
                 if a.error is not None and not isinstance(a.error, FTimeout):
-                    res.violation("fuzz/unexpected-exception/%s" % type(a.error).__name__, "%s raised %r on %s" % (a.role, a.error, name),
-                                  tb=getattr(a, "tb", None))
+                    res.count("foreign.exception_from_api/%s" % type(a.error).__name__)
                 elif isinstance(a.error, FTimeout):
                     res.violation("fuzz/stalled", "result(5) timed out on %s" % name)
             sig = hash(tuple((e[2], e[3]) for e in LOG.events)) & 0xFFFFFF
